@@ -1,5 +1,83 @@
-import Rtcm.Model.Names
-import Rtcm.Model.Socket
+import Rtcm.Lemmas.Crc
+import Rtcm.Model.Message
 import Rtcm.Gen.Tables
+/-
+  C07 — serialize and parse are mutual inverses and framing is canonical.
+  PARTIAL: `eval(repr(m))` rebuilding the payload is CPython's `bytes.__repr__` / `eval`; the model
+  proves that a message stores the payload it was given verbatim (`C07_payload_verbatim`), the
+  harness checks `eval(repr(m)).payload == payload` on the implementation.
+-/
 namespace Rtcm
+
+theorem construct_payload (T : Tables) (p : Bytes) (l : Nat) (m : Msg) (h : construct T (some p) l = .ok m) :
+    m.payload = p := by
+  unfold construct at h
+  simp only at h
+  split at h
+  · simp at h
+  · simp at h
+  · split at h
+    · injection h with h; rw [← h]
+    · split at h
+      · simp at h
+      · injection h with h; rw [← h]
+
+/-- a message keeps the payload it was constructed from, byte for byte -/
+theorem C07_payload_verbatim (T : Tables) (p : Bytes) (l : Nat) (m : Msg) (h : construct T (some p) l = .ok m) :
+    m.payload = p := construct_payload T p l m h
+
+/-- Serialising gives exactly the preamble, the payload length as 16 bits big-endian (top six bits
+    zero up to 1023 bytes), the payload, and the CRC-24Q of those bytes. -/
+theorem C07_serialize_shape (T : Tables) (p : Bytes) (l : Nat) (m : Msg) (hc : construct T (some p) l = .ok m)
+    (hlen : p.length < 65536) :
+    let hdr := [UInt8.ofNat T.rtcmHdr, UInt8.ofNat (p.length / 256), UInt8.ofNat (p.length % 256)]
+    m.serialize T = .ok (hdr ++ p ++ crc2bytes (hdr ++ p))
+    ∧ (p.length ≤ 1023 → p.length / 256 < 4) := by
+  refine ⟨?_, fun h => by omega⟩
+  simp [Msg.serialize, construct_payload T p l m hc, frameOf, len2bytes, hlen]
+
+/-- Parsing the serialised output gives a message with the same payload, identity and attribute
+    values (the very same message), with validation on or off. -/
+theorem C07_parse_serialize (T : Tables) (p : Bytes) (l v : Nat) (m : Msg) (hc : construct T (some p) l = .ok m)
+    (hlen : p.length < 65536) :
+    ∃ f, m.serialize T = .ok f ∧ parse T f v l = .ok m := by
+  obtain ⟨hs, _⟩ := C07_serialize_shape T p l m hc hlen
+  refine ⟨_, hs, ?_⟩
+  unfold parse
+  have hcrc : calcCrc24q
+      ([UInt8.ofNat T.rtcmHdr, UInt8.ofNat (p.length / 256), UInt8.ofNat (p.length % 256)] ++ p
+        ++ crc2bytes ([UInt8.ofNat T.rtcmHdr, UInt8.ofNat (p.length / 256), UInt8.ofNat (p.length % 256)] ++ p)) = 0 :=
+    crc_self_zero _
+  rw [if_neg (by rw [hcrc]; simp)]
+  have : ∀ c : Bytes, c.length = 3 →
+      (([UInt8.ofNat T.rtcmHdr, UInt8.ofNat (p.length / 256), UInt8.ofNat (p.length % 256)] ++ p ++ c).drop 3).take
+        (([UInt8.ofNat T.rtcmHdr, UInt8.ofNat (p.length / 256), UInt8.ofNat (p.length % 256)] ++ p ++ c).length - 3 - 3) = p := by
+    intro c hc3
+    simp [hc3]
+  rw [this _ (by simp [crc2bytes, toBytes3])]
+  exact hc
+
+/-- Conversely, for every valid frame (preamble, length field equal to the payload size, correct
+    CRC), parsing then serialising reproduces the frame byte for byte. -/
+theorem C07_serialize_parse (T : Tables) (p c : Bytes) (l v : Nat) (m : Msg)
+    (hc3 : c.length = 3) (hlen : p.length < 65536)
+    (hvalid : calcCrc24q ([UInt8.ofNat T.rtcmHdr, UInt8.ofNat (p.length / 256), UInt8.ofNat (p.length % 256)] ++ p ++ c) = 0)
+    (hp : parse T ([UInt8.ofNat T.rtcmHdr, UInt8.ofNat (p.length / 256), UInt8.ofNat (p.length % 256)] ++ p ++ c) v l = .ok m) :
+    m.serialize T = .ok ([UInt8.ofNat T.rtcmHdr, UInt8.ofNat (p.length / 256), UInt8.ofNat (p.length % 256)] ++ p ++ c) := by
+  unfold parse at hp
+  split at hp
+  · simp at hp
+  · have : (([UInt8.ofNat T.rtcmHdr, UInt8.ofNat (p.length / 256), UInt8.ofNat (p.length % 256)] ++ p ++ c).drop 3).take
+        (([UInt8.ofNat T.rtcmHdr, UInt8.ofNat (p.length / 256), UInt8.ofNat (p.length % 256)] ++ p ++ c).length - 3 - 3) = p := by
+      simp [hc3]
+    rw [this] at hp
+    obtain ⟨hs, _⟩ := C07_serialize_shape T p l m hp hlen
+    rw [hs, crc_trailer_unique _ c hc3 hvalid]
+
+/-- the preamble of the current tables is 0xD3 -/
+theorem C07_preamble : Gen.tables.rtcmHdr = 0xD3 := by decide +kernel
+
+/-- non-vacuity: a 2-byte unknown-type payload is constructed and round-trips -/
+example : (construct Gen.tables (some [0xff, 0xf0]) 1).isOk = true := by decide +kernel
+
 end Rtcm
